@@ -431,7 +431,7 @@ def op_line(impl, case):
             + ' '.join(f'{a}:{v}' for a, v in sorted(case['mem'].items())))
 
 
-def norm_model(line, is_c, observed_tag):
+def norm_model(line, is_c, observed_tag, init_mem=None):
     """Model output -> the fields observable on the real code: `regs ; pc t iff im halt ; ts ; msgs ; sc ; writes`
     + (hit, miss, deca kind) returned separately."""
     parts = [p.strip() for p in line.split(';')]
@@ -442,6 +442,9 @@ def norm_model(line, is_c, observed_tag):
     for w in writes.split():
         a, v = w.split(':')
         final[int(a)] = int(v)
+    if init_mem is not None:
+        # the real side reports cells that CHANGED: a write of the value already there is not observable
+        final = {a: v for a, v in final.items() if init_mem.get(a, 0) != v}
     return f"{regs} ; {f} ; {ts} ; {msgs} ; {sc} ; " + ' '.join(f'{a}:{v}' for a, v in sorted(final.items())), tag
 
 
@@ -809,8 +812,8 @@ def lsteps(chk, loadtracer, loadsample, tape, classes):
             continue
         norm_m, norm_i = [], []
         accel_hits = 0
-        for o, m, tg in zip(impl, model, tags):
-            nm, mtag = norm_model(m, is_c, tg)
+        for o, m, tg, case_ in zip(impl, model, tags, cases):
+            nm, mtag = norm_model(m, is_c, tg, case_['mem'])
             ni = ' '.join(o.split())
             nm = ' '.join(nm.split())
             if tg is not None and mtag is not None:
